@@ -19,6 +19,12 @@ def handle : List String → Option String
     if f != wire then some ("mismatch: model formats " ++ f)
     else if parse p wire != some n then some "mismatch: wire string does not parse back"
     else some "ok"
+  -- `elems <request|response> <query|header> <hex element>*`: what arrives under the key
+  | "elems" :: d :: l :: xs => do
+    let dir ← (match d with | "request" => some Dir.request | "response" => some Dir.response | _ => none)
+    let loc ← (match l with | "query" => some Loc.query | "header" => some Loc.header | _ => none)
+    let elems ← xs.mapM hexToString
+    some (" ".intercalate ("arrives" :: (deliverElems dir loc elems).map fun e => encString e))
   | _ => none
 
 end GoaVerif.Drive.Transport
